@@ -1,10 +1,14 @@
 (* Driver for the extracted parser model: `parse_driver expr|stmt|outer|type CASES`; CASES holds one
    hex-encoded UTF-8 source per line ("-" = empty).  Prints the same line as `verif-harness <mode>`:
-   `OK <tokens consumed>/<tokens total> <s-expression>` or `ERR` (`FUEL` if the model ran out of fuel). *)
+   `OK <tokens consumed>/<tokens total> <s-expression>` or `ERR <consumed>/<total> <line:col:col of each error>`
+   (`FUEL` if the model ran out of fuel, `MODELPANIC` where the Rust code would panic or spin).
+   Mode `module` parses a whole file (sylt_parser's module()). *)
 open Parsemodel
 
 let rec pos_of_int n = if n = 1 then XH else if n land 1 = 1 then XI (pos_of_int (n lsr 1)) else XO (pos_of_int (n lsr 1))
 let n_of_int n = if n = 0 then N0 else Npos (pos_of_int n)
+let rec int_of_pos = function XH -> 1 | XO p -> 2 * int_of_pos p | XI p -> 2 * int_of_pos p + 1
+let int_of_n = function N0 -> 0 | Npos p -> int_of_pos p
 let rec int_of_nat = function O -> 0 | S n -> 1 + int_of_nat n
 let int_of_nat n = let rec go acc = function O -> acc | S m -> go (acc + 1) m in go 0 n
 
@@ -33,7 +37,7 @@ let string_of_chars (l : char list) =
 
 let () =
   let m = match Sys.argv.(1) with
-    | "expr" -> MExpr | "stmt" -> MStmt | "outer" -> MOuter | "type" -> MType
+    | "expr" -> MExpr | "stmt" -> MStmt | "outer" -> MOuter | "type" -> MType | "module" -> MModule
     | _ -> failwith "mode" in
   let ic = open_in Sys.argv.(2) in
   (try
@@ -42,8 +46,12 @@ let () =
       let cps = List.map n_of_int (decode_utf8 (unhex line)) in
       (match drive gen_table gen_ptab m cps with
        | LOk (c, t, s) -> Printf.printf "OK %d/%d %s\n" (int_of_nat c) (int_of_nat t) (string_of_chars s)
-       | LErr -> print_endline "ERR"
-       | LFuel -> print_endline "FUEL")
+       | LErr (c, t, spans) ->
+           Printf.printf "ERR %d/%d%s\n" (int_of_nat c) (int_of_nat t)
+             (String.concat "" (List.map (fun ((l, a), b) ->
+                Printf.sprintf " %d:%d:%d" (int_of_n l) (int_of_n a) (int_of_n b)) spans))
+       | LFuel -> print_endline "FUEL"
+       | LPanic -> print_endline "MODELPANIC")
     done
   with End_of_file -> ());
   close_in ic
